@@ -73,11 +73,13 @@ def orderedDeps (g : Graph) (fuel : Nat) (orders : Nat → List Mod) (m : Mod) :
 inductive AddRes | ok | noSuchModule | circular | crash
 deriving DecidableEq, Repr
 
-/-- the check loop of `AddDependency(name, dependsOn...)`. -/
+/-- the check loop of `AddDependency(name, dependsOn...)`: each new dependency must be registered, must
+not be the module itself (fix a0dd941), and must not already depend on the module. -/
 def addCheck (g : Graph) (fuel : Nat) (name : Mod) : List Mod → AddRes
   | [] => .ok
   | d :: ds =>
     if !g.has d then .noSuchModule
+    else if d = name then .circular
     else match dependenciesFor g fuel d with
       | none => .crash
       | some prev => if prev.contains name then .circular else addCheck g fuel name ds
@@ -88,6 +90,22 @@ def setDeps (deps : List (List Mod)) (m : Mod) (f : List Mod → List Mod) : Lis
 def addDependency (g : Graph) (fuel : Nat) (name : Mod) (dependsOn : List Mod) : AddRes × Graph :=
   if !g.has name then (.noSuchModule, g)
   else match addCheck g fuel name dependsOn with
+    | .ok => (.ok, { g with deps := setDeps g.deps name (· ++ dependsOn) })
+    | r => (r, g)
+
+/-- HISTORY: the check loop before fix a0dd941 (no `newDep == name` test). Kept only to state what was
+wrong (`Props/C18.lean`, `self_dependency_was_accepted`); the running code is `addCheck`. -/
+def addCheckOld (g : Graph) (fuel : Nat) (name : Mod) : List Mod → AddRes
+  | [] => .ok
+  | d :: ds =>
+    if !g.has d then .noSuchModule
+    else match dependenciesFor g fuel d with
+      | none => .crash
+      | some prev => if prev.contains name then .circular else addCheckOld g fuel name ds
+
+def addDependencyOld (g : Graph) (fuel : Nat) (name : Mod) (dependsOn : List Mod) : AddRes × Graph :=
+  if !g.has name then (.noSuchModule, g)
+  else match addCheckOld g fuel name dependsOn with
     | .ok => (.ok, { g with deps := setDeps g.deps name (· ++ dependsOn) })
     | r => (r, g)
 
